@@ -6,7 +6,7 @@ sys.path.insert(0, str(HERE))
 seen = []
 for f in sorted((HERE / "props").glob("c*.py")):
     m = importlib.import_module(f"props.{f.stem}")
-    for t in list(getattr(m, "LEAN_TARGETS", [])) + list(getattr(m, "DRIVERS", [])):
+    for t in list(getattr(m, "LEAN_TARGETS", [])) + list(getattr(m, "EXTRA_LEAN_TARGETS", [])) + list(getattr(m, "DRIVERS", [])):
         if t not in seen:
             seen.append(t)
 print(" ".join(seen))
